@@ -34,6 +34,10 @@ mod multilinear_brakedown;
 mod multilinear_ligero;
 mod univariate_ligero;
 
+/// Accessors for external conformance harnesses (only with `--cfg pc_verif`).
+#[cfg(pc_verif)]
+pub mod verif_hooks;
+
 pub use data_structures::{BrakedownPCParams, LigeroPCParams, LinCodePCProof};
 pub use multilinear_brakedown::MultilinearBrakedown;
 pub use multilinear_ligero::MultilinearLigero;
